@@ -107,3 +107,75 @@ func VerifC06IDs() {
 		}
 	}
 }
+
+func c06Path(g *d2graph.Graph, o *d2graph.Object) string {
+	var names []string
+	for p := o; p != nil && p != g.Root; p = p.Parent {
+		names = append([]string{p.IDVal}, names...)
+	}
+	return strings.Join(names, "\x00")
+}
+
+// c06SpecialName: names that mean something else than an object when written without quotes.
+func c06SpecialName(n string) bool {
+	l := strings.ToLower(n)
+	switch l {
+	case "_", "layers", "scenarios", "steps", "label", "shape", "style", "near", "icon", "link", "tooltip", "width", "height", "top", "left", "class", "classes", "vars", "direction", "constraint", "desc", "source-arrowhead", "target-arrowhead", "grid-rows", "grid-columns", "grid-gap", "vertical-gap", "horizontal-gap", "null":
+		return true
+	}
+	return false
+}
+
+// VerifC06Quoted: objects declared through quoted keys. The absolute ID must
+// name exactly that object: written as a program of its own it declares an
+// object with the same name path and nothing else.
+func VerifC06Quoted() {
+	words := []string{"_", "label", "layers", "Shape", "null", "a.b", "*", "a b", " a", "a:", "-", "a--", "#", "$x", "@a", "(a)", "a'", "a\\", "...", "&a", "!&a", "[a]"}
+	var name string
+	if nd.Bool("word") {
+		name = words[nd.Choose("w", 0, len(words)-1)]
+	} else {
+		name = nd.From("n", nd.Choose("nl", 1, nd.Param("NQ", 2)), "a_.*- :'\\#$&!@()[]{}<>;|~`")
+	}
+	q := "\""
+	if nd.Bool("single") {
+		q = "'"
+	}
+	nd.Assume(!strings.Contains(name, q) && !strings.Contains(name, "\\"))
+	prefix := []string{"", "x.", "x: {", "\"y z\"."}[nd.Choose("prefix", 0, 3)]
+	text := prefix + q + name + q
+	if strings.HasSuffix(prefix, "{") {
+		text += "}"
+	}
+	g, _, err := Compile("f.d2", strings.NewReader(text+"\n"), nil)
+	if err != nil {
+		nd.Cover("rejected")
+		return
+	}
+	nd.Cover("compiled")
+	var o *d2graph.Object
+	for _, x := range g.Objects {
+		if x.IDVal == name {
+			o = x
+		}
+	}
+	if nd.Known("C06-special-name-id-unquoted") && c06SpecialName(name) {
+		// recorded finding: `_`, reserved keywords and board keywords declared through a
+		// quoted key get an unquoted (and lower-cased) ID
+		return
+	}
+	nd.Assert(o != nil, "a quoted key declares an object with exactly that name")
+	abs := o.AbsID()
+	k, err := d2parser.ParseKey(abs)
+	nd.Assert(err == nil && k != nil, "the absolute ID is valid key syntax")
+	g2, _, err := Compile("f.d2", strings.NewReader(abs+"\n"), nil)
+	nd.Assert(err == nil, "the absolute ID written as a program compiles")
+	found := false
+	for _, x := range g2.Objects {
+		if c06Path(g2, x) == c06Path(g, o) {
+			found = true
+		}
+	}
+	nd.Assert(found, "the absolute ID written as a program declares the object it names")
+	nd.Assert(len(g2.Objects) == strings.Count(c06Path(g, o), "\x00")+1 && len(g2.Edges) == 0, "the absolute ID written as a program declares nothing else")
+}
